@@ -58,6 +58,10 @@ pub fn read_table_block(
     Ok(Block::new(opt, contents))
 }
 
+/// Upper bound for the ratio uncompressed/compressed length of a valid Snappy stream (the densest
+/// element, a copy with a 2-byte offset, yields 64 bytes from 3).
+const SNAPPY_MAX_EXPANSION: usize = 32;
+
 /// Reads the block at `location`, verifies its checksum and decompresses it if necessary.
 fn read_block_contents(f: &dyn RandomAccess, location: &BlockHandle) -> Result<Vec<u8>> {
     // The block is denoted by offset and length in BlockHandle. A block in an encoded
@@ -90,6 +94,20 @@ fn read_block_contents(f: &dyn RandomAccess, location: &BlockHandle) -> Result<V
         match ctype {
             CompressionType::CompressionNone => Ok(buf),
             CompressionType::CompressionSnappy => {
+                // The uncompressed length is declared in the first bytes of the stream and is
+                // allocated up front by the decoder. No Snappy element expands to more than 64
+                // bytes per 3 bytes of input, so a larger claim can only come from a damaged or
+                // crafted block; reject it instead of allocating up to 4 GiB for it.
+                let declared = snap::raw::decompress_len(&buf)?;
+                if declared > buf.len().saturating_mul(SNAPPY_MAX_EXPANSION) {
+                    return err(
+                        StatusCode::CompressionError,
+                        &format!(
+                            "implausible uncompressed length for block at {}",
+                            location.offset()
+                        ),
+                    );
+                }
                 let decoded = Decoder::new().decompress_vec(&buf)?;
                 Ok(decoded)
             }
